@@ -297,6 +297,54 @@ func c17HangingDials(n int, variant int) pxScenario {
 	return pxScenario{Icp: 0, ByRef: variant%2 == 0, Steps: b.steps, Tags: []string{"hanging-dials", fmt.Sprintf("hanging=%d", n)}}
 }
 
+// both directions of ONE connection fail while the single serve loop is busy elsewhere: it sits in the (slow)
+// disconnect callback of another peer. The connection's write loop is inside a blocked Write; inside ONE step: the
+// other peer's Read fails (the serve loop enters its callback and stays there), then the connection's Read fails
+// and its Write fails (in either order), then the callback returns. The dead connection must be reported (with
+// its own error) and removed; the name is dialled again. Judged by the predicates (the model has no slow callback).
+func c17HeldLoop(order string, ek int, unheld bool) pxScenario {
+	b := &pxBuilder{tok: 100}
+	b.add(att(1)...)
+	b.add(att(2)...)
+	b.add(att(3)...)
+	b.add(b.send(1, 3))
+	b.add(PAct{Op: "setw", N: 3, M: "block"})
+	b.add(b.send(1, 3)) // the write loop of 3 is now inside the blocked Write
+	b.add(b.send(2, 3))
+	wfail := PAct{Op: "setw", N: 3, M: "fail", Err: ek}
+	if order == "read-then-failafter" {
+		wfail.M = "failafter"
+	}
+	rfail := PAct{Op: "failread", N: 3, Err: ek}
+	w := PAct{Op: "wait"}
+	var g []PAct
+	if !unheld {
+		g = append(g, PAct{Op: "hold", N: 2}, PAct{Op: "failread", N: 2}, w)
+	}
+	switch order {
+	case "write-then-read":
+		g = append(g, wfail, w, rfail, w)
+	default:
+		g = append(g, rfail, w, wfail, w)
+	}
+	if unheld {
+		// no slow callback: the two failures simply happen together (no settling in between)
+		g = []PAct{rfail, wfail}
+		if order == "write-then-read" {
+			g = []PAct{wfail, rfail}
+		}
+	}
+	g = append(g, PAct{Op: "release"})
+	b.add(g...)
+	b.add(b.send(1, 2))
+	b.add(b.send(1, 3)) // dialled again
+	b.add(PAct{Op: "dial", N: 3, M: "ok"})
+	b.add(PAct{Op: "dial", N: 2, M: "ok"})
+	b.add(b.send(1, 3))
+	return pxScenario{Icp: 0, ByRef: ek%2 == 0, Steps: b.steps,
+		Tags: []string{"held-loop", "order=" + order, fmt.Sprintf("serve-loop-held=%v", !unheld), fmt.Sprintf("err=%d", ek)}}
+}
+
 // the dial-error role with every error value (and the name dialled again)
 func c17DialErr(ek int) pxScenario {
 	b := &pxBuilder{tok: 100}
@@ -425,6 +473,17 @@ func c17Scenarios() []pxScenario {
 	for ek := 0; ek < pxNumErrKinds; ek++ {
 		out = append(out, c17DialErr(ek))
 	}
+	for _, order := range []string{"read-then-write", "write-then-read", "read-then-failafter"} {
+		for ek := 0; ek < pxNumErrKinds; ek++ {
+			if !thorough() && ek >= 2 && ek != 5 {
+				continue
+			}
+			out = append(out, c17HeldLoop(order, ek, false))
+			for rep := 0; rep < 2; rep++ { // the unheld variant depends on the schedule: repeated
+				out = append(out, c17HeldLoop(order, ek, true))
+			}
+		}
+	}
 	for _, n := range []int{1, 2, 3, 4, 5, 8, 9, 16, 17} {
 		for v := 0; v < 2; v++ {
 			out = append(out, c17HangingDials(n, v))
@@ -473,7 +532,7 @@ func TestC17(t *testing.T) {
 		sc := sc
 		kind := "proxy"
 		for _, tg := range sc.Tags {
-			if tg == "concurrent-cancel" {
+			if tg == "concurrent-cancel" || tg == "held-loop" {
 				kind = "proxy-loose" // faults and cancellation in one step: judged by the predicates alone
 			}
 		}
